@@ -1500,3 +1500,68 @@ package goatlang
 //@   ensures fst(splitParams(joinParams(a, b))) == a && snd(splitParams(joinParams(a, b))) == b
 //@ func sameLine
 //@   inline
+
+// ---------------------------------------------------------------------------------------------
+// Layer P / C05: the Pratt loop. The symbol table itself is extracted from init() and checked
+// against Go's five precedence levels (symbols/T1..T4, M1). lbpOf is the table as a function.
+// ---------------------------------------------------------------------------------------------
+//@ ghost lbpOf(sym string) int
+//@
+//@ func getSymbol
+//@   property C05
+//@   trusted
+//@   ensures result != nil && result.Lbp == lbpOf(t.Symbol)
+//@
+//@ functype symbol.Nud(self *symbol, p *parser, t *token)
+//@   modifies *
+//@ functype symbol.Led(self *symbol, p *parser, t *token, left *token)
+//@   modifies *
+//@
+//@ func (*parser).Next
+//@   property C05
+//@   modifies fields(p)
+//@   panics_iff p.N < 0 || p.N >= len(p.Tokens)
+//@   ensures p.Token == old(p.Tokens[p.N]) && result == p.Token && p.N == old(p.N) + 1 && p.Tokens == old(p.Tokens) && p.mask == old(p.mask) && p.Depth == old(p.Depth)
+//@
+//@ func (*token).Append
+//@   property C05
+//@   modifies fields(t) elems(t.Tokens)
+//@   allocates elems(*token)
+//@   nopanic
+//@   ensures len(t.Tokens) == old(len(t.Tokens)) + 1 && t.Tokens[len(t.Tokens)-1] == b && t.Symbol == old(t.Symbol) && t.Text == old(t.Text) && t.Pos == old(t.Pos)
+//@   ensures forall j int :: 0 <= j && j < old(len(t.Tokens)) ==> t.Tokens[j] == old(t.Tokens[j])
+//@
+//@ func (*parser).doExpression
+//@   property C05
+//@   requires p != nil
+//@   modifies *
+//@   callsite#strict symbol.Led: rbp < lbpOf(arg_t.Symbol)
+//@ func (*parser).doExpression loop 0
+//@   invariant p != nil
+//@
+//@ func ledInfix
+//@   property C05
+//@   requires p != nil && t != nil
+//@   modifies *
+//@   callsite#leftassoc (*parser).doExpression: arg_rbp == lbpOf(t.Symbol)
+//@
+//@ func negateNud
+//@   property C05
+//@   requires p != nil && t != nil
+//@   modifies *
+//@   callsite#unary (*parser).doExpression: arg_rbp >= maxBinaryLbp() && arg_rbp < minPostfixLbp()
+//@ func complementNud
+//@   property C05
+//@   requires p != nil && t != nil
+//@   modifies *
+//@   callsite#unary (*parser).doExpression: arg_rbp >= maxBinaryLbp() && arg_rbp < minPostfixLbp()
+//@ func notNud
+//@   property C05
+//@   requires p != nil && t != nil
+//@   modifies *
+//@   callsite#unary (*parser).doExpression: arg_rbp >= maxBinaryLbp() && arg_rbp < minPostfixLbp()
+//@ func (*token).rename
+//@   property C05
+//@   modifies fields(t)
+//@   nopanic
+//@   ensures t.Symbol == v && t.Text == v && t.Tokens == old(t.Tokens)
